@@ -24,9 +24,12 @@ import (
 )
 
 type C13Op struct {
-	Kind string `json:"kind"` // put get start stop abort lang dump
+	Kind string `json:"kind"` // put get start stop abort lang dump undump
 	Key  string `json:"key,omitempty"`
 	Lang string `json:"lang,omitempty"`
+	// Hold (dump): the caller takes the first entry only and keeps the dumper, unread and
+	// unclosed, until an undump (or for good)
+	Hold bool `json:"hold,omitempty"`
 }
 
 type C13Case struct {
@@ -48,6 +51,9 @@ func (c C13Case) String() string {
 		}
 		if op.Kind == "lang" {
 			x += " " + map[bool]string{true: "-", false: op.Lang}[op.Lang == ""]
+		}
+		if op.Hold {
+			x += " (held)"
 		}
 		s = append(s, x)
 	}
@@ -115,6 +121,7 @@ func runC13(c C13Case) (res c13Result) {
 		return r
 	}
 	ops := append(append([]C13Op{}, c.Ops...), C13Op{Kind: "close"})
+	var held *db.Dumper
 	for i, op := range ops {
 		primBefore := srv.Prim()
 		logBefore := srv.LogLen()
@@ -138,7 +145,13 @@ func runC13(c C13Case) (res c13Result) {
 				var d *db.Dumper
 				d, err = store.Dump(ctx, []byte(op.Key))
 				dumpLog = srv.LogLen()
-				if err == nil && d != nil {
+				if err == nil && d != nil && op.Hold {
+					dumped = map[string][]byte{}
+					if k, v := d.Next(ctx); k != nil {
+						dumped[string(k)] = v
+					}
+					held = d
+				} else if err == nil && d != nil {
 					dumped = map[string][]byte{}
 					for n := 0; n < 100; n++ {
 						k, v := d.Next(ctx)
@@ -157,6 +170,11 @@ func runC13(c C13Case) (res c13Result) {
 					} else {
 						store.SetLanguage(langPtr(curLang))
 					}
+				}
+			case "undump":
+				if held != nil {
+					held.Close()
+					held = nil
 				}
 			case "put":
 				err = store.Put(ctx, []byte(op.Key), val)
@@ -326,6 +344,15 @@ func runC13(c C13Case) (res c13Result) {
 			if faulted || ref.faultSeen && i <= lastFaultOp {
 				break
 			}
+			if op.Hold {
+				// one entry was read: it has to be a right one, the rest is not looked at
+				for name, gv := range dumped {
+					if want, ok := ref.vals[name]; ok && !ref.free[name] && !ref.explicit && !bytes.Equal(gv, want) {
+						return stickyFail(fail(i, op, "wrong-value", "Dump lists %s=%q first, the acknowledged value is %q", name, gv, want), name)
+					}
+				}
+				break
+			}
 			n := 0
 			for name, want := range ref.vals {
 				if ref.free[name] || !strings.HasPrefix(name, op.Key) {
@@ -480,7 +507,7 @@ func fmtDump(m map[string][]byte) string {
 func checkC13(c C13Case) (o Outcome) {
 	for _, op := range c.Ops {
 		switch op.Kind {
-		case "put", "get", "start", "stop", "abort", "dump":
+		case "put", "get", "start", "stop", "abort", "dump", "undump":
 		case "lang":
 			if op.Lang != "" && op.Lang != "nor" && op.Lang != "eng" {
 				o.Discard = "unknown-language"
@@ -519,7 +546,7 @@ var c13Alphabet = []C13Op{{Kind: "put", Key: "k1"}, {Kind: "put", Key: "k2"}, {K
 var c13AlphabetTr = []C13Op{{Kind: "put", Key: "k1"}, {Kind: "get", Key: "k1"}, {Kind: "lang", Lang: "nor"}, {Kind: "lang", Lang: ""}, {Kind: "dump", Key: "k"}, {Kind: "start"}, {Kind: "stop"}}
 
 var genC13Op = rapid.Custom(func(t *rapid.T) C13Op {
-	switch k := uniformN(t, 20, "kind"); {
+	switch k := uniformN(t, 22, "kind"); {
 	case k < 7:
 		return C13Op{Kind: "put", Key: []string{"k1", "k2", "k3"}[uniformN(t, 3, "key")]}
 	case k < 13:
@@ -532,6 +559,10 @@ var genC13Op = rapid.Custom(func(t *rapid.T) C13Op {
 		return C13Op{Kind: "dump", Key: []string{"k", "k1", "k2"}[uniformN(t, 3, "dumpkey")]}
 	case k < 19:
 		return C13Op{Kind: "lang", Lang: []string{"", "nor", "eng"}[uniformN(t, 3, "lang")]}
+	case k < 20:
+		return C13Op{Kind: "dump", Key: []string{"k", "k1", "k2"}[uniformN(t, 3, "dumpkey")], Hold: true}
+	case k < 21:
+		return C13Op{Kind: "undump"}
 	}
 	return C13Op{Kind: "abort"}
 })
